@@ -1772,20 +1772,37 @@ def explore(
 
 
 def _harness_callable_names(here, frames):
-    """names mentioned in a signature-mismatch TypeError that belong to harness classes/functions:
-    'NP13.full() got an unexpected keyword argument' names a stand-in although the raising frame is
-    the library's call site"""
-    import sys
+    """(kept for callers) names of module-level callables of the harness"""
+    return _HarnessNames(here)
 
-    out = set()
-    for name, mod in list(sys.modules.items()):
-        f = getattr(mod, "__file__", None)
-        if f and os.path.abspath(f).startswith(here):
-            for k, v in list(vars(mod).items()):
-                if isinstance(v, type) or callable(v):
-                    out.add(k + ".")
-                    out.add(k + "(")
-    return out
+
+class _HarnessNames:
+    """`name in obj` : is `name` (the 'X.y' in front of '()' in a signature-mismatch TypeError) the
+    qualified name of a function defined in the harness?  Local classes and closures included: every
+    live function object whose code comes from a file under vf/ is looked at."""
+
+    def __init__(self, here):
+        self.here = here
+        self._q = None
+
+    def _names(self):
+        if self._q is None:
+            import gc
+            import types
+
+            q = set()
+            for o in gc.get_objects():
+                if isinstance(o, types.FunctionType):
+                    try:
+                        if os.path.abspath(o.__code__.co_filename).startswith(self.here):
+                            q.add(o.__qualname__)
+                    except Exception:  # noqa: BLE001
+                        pass
+            self._q = q
+        return self._q
+
+    def __iter__(self):
+        return iter(n + "(" for n in self._names())
 
 
 def run_concrete(harness: Callable[[], Any], model_vals: dict, expected_exc: tuple = ()):
